@@ -396,10 +396,15 @@ def check_list_union(ver, kind, spec, st):
                '<xs:element name="e" type="T"/></xs:schema>' % (XS, item, facets_xsd(f)))
         s = cls(xsd)
         pool = ['', '1', '1 2', '1 2 3', ' 1  2 ', '1 x', '1\t2\n3', '1 2 3 4', '01 +2', 'a b', 'true 1', '1.5 2']
+        if item == 'QName':
+            # unprefixed QNames only (no namespace context needed): an item is valid iff it is an NCName;
+            # length facets count the ITEMS of a list whatever the item type (the QName/NOTATION exemption
+            # of erratum 4009 is about atomic QName / NOTATION values only)
+            pool = ['', 'a', 'a b', 'a b c', ' a  b ', 'a 1x', 'a\tb\nc', 'a b c d', 'a b c d e']
         for text in pool:
             st.case()
             items = dt.normalize(text, dt.WS_COLLAPSE).split(' ') if dt.normalize(text, dt.WS_COLLAPSE) else []
-            oks = [dt.check(item, it, v11) for it in items]
+            oks = [dt.check('NCName' if item == 'QName' else item, it, v11) for it in items]
             if any(o[0] is None for o in oks):
                 continue
             exp = all(o[0] for o in oks)
@@ -414,7 +419,7 @@ def check_list_union(ver, kind, spec, st):
             got = s.is_valid('<e>%s</e>' % escape(text))
             if got != exp:
                 out.append(rec('accept_list', ver, item, text, 'element', exp, got, {'facets': f}))
-            elif exp and n:
+            elif exp and n and item != 'QName':
                 val = s.decode('<e>%s</e>' % escape(text))
                 refs = [o[1] for o in oks]
                 if not isinstance(val, list) or len(val) != n or any(
@@ -653,11 +658,13 @@ def run_shard(desc):
             hst.tuples(hst.just('a'), hst.lists(hst.sampled_from(['string', 'integer', 'token']), min_size=1, max_size=1),
                        hst.one_of(hst.sampled_from(COMBO_PATTERNS),
                                   hst.lists(hst.sampled_from(COMBO_PATTERNS[1:]), min_size=2, max_size=2))))
+        # a third of the values carry leading / trailing blanks (collapsed by every member type before the pattern applies)
+        padded = hst.tuples(hst.sampled_from(COMBO_POOL), hst.sampled_from(['%s', '%s', '%s', ' %s', '%s ', '  %s '])).map(
+            lambda v: v[1] % v[0])
         strat = hst.lists(spec, min_size=2, max_size=4).flatmap(lambda sp: hst.tuples(
             hst.just(sp),
-            hst.lists(hst.tuples(hst.integers(0, len(sp) - 1), hst.sampled_from(COMBO_POOL)), min_size=1, max_size=5),
-            hst.lists(hst.tuples(hst.integers(0, len(sp) - 1), hst.sampled_from(COMBO_POOL)), max_size=2,
-                      unique_by=lambda v: v[0])))
+            hst.lists(hst.tuples(hst.integers(0, len(sp) - 1), padded), min_size=1, max_size=5),
+            hst.lists(hst.tuples(hst.integers(0, len(sp) - 1), padded), max_size=2, unique_by=lambda v: v[0])))
 
         def body(v, st_):
             specs, values, attrs = v
@@ -667,12 +674,12 @@ def run_shard(desc):
         core.hyp_drive(st, PROPERTY, strat, body, n, core.derive_seed(seed, 'C02combo', ver))
     else:
         _, ver, tier, seed = desc
-        n = 150 if tier == 'thorough' else 40
+        n = 600 if tier == 'thorough' else 160
         lf = hst.fixed_dictionaries({}, optional={'length': hst.integers(0, 3), 'minLength': hst.integers(0, 3),
                                                   'maxLength': hst.integers(0, 4)}).filter(
             lambda f: facets_consistent('string', f))
         strat = hst.one_of(
-            hst.tuples(hst.just('list'), hst.tuples(hst.sampled_from(['int', 'boolean', 'decimal', 'NMTOKEN']), lf)),
+            hst.tuples(hst.just('list'), hst.tuples(hst.sampled_from(['int', 'boolean', 'decimal', 'NMTOKEN', 'QName']), lf)),
             hst.tuples(hst.just('union'), hst.lists(hst.sampled_from(
                 ['int', 'boolean', 'decimal', 'date', 'double', 'token', 'string', 'NMTOKEN']),
                 min_size=1, max_size=3, unique=True)))
